@@ -186,7 +186,7 @@ def _eval_namespace(R):
     if len(c.args) != 3:
         R.violation(q, 'eval-call:' + text(c)[:50], f'`{text(c)[:60]}` is not eval(expression, globals, <namespace>)', where=f.fi.where)
         return f, c, None
-    se = SymExec(f.fi.node)
+    se = f.symexec()
     ns = canon(se.value(_stmt_of(f.fi.node, se, c), c.args[2]))
     return f, c, merge_layers(ns)
 
@@ -275,6 +275,13 @@ def r5_no_self_writes(R) -> None:
             R.violation(q, 'calls-writer:' + text(x.func), f'evaluation calls `{text(x.func)}()`, which may modify the container', where=f'{fi.module.relpath}:{x.lineno}')
         if not ws and not bad:
             R.ok(q, 'no write to the container')
+        # nor does evaluation keep anything between calls: a namespace remembered at module level goes stale as soon as a
+        # series is rebound (assigning a sequence to a variable installs a new array)
+        from rules.c14 import global_writes
+        from rules.common import module_bound_names
+        for w in global_writes(fi, module_bound_names(R.repo, fi.module.name)):
+            R.violation(q, 'eval-state:' + text(w)[:50], f'`{text(w)[:70]}` keeps state at module level between evaluations: a later eval() can compute with arrays the container '
+                        f'no longer holds', where=f'{fi.module.relpath}:{w.lineno}')
 
 
 def r6_nameerror(R) -> None:
@@ -310,28 +317,35 @@ def r6_nameerror(R) -> None:
 def r7_label_provenance(R) -> None:
     q = f'{VC}._resolve_expression_indexes.<locals>.resolve_indexes'
     f = Fn(R, q)
-    incs = [n for n in f.cfg.nodes if n.kind == 'stmt' and isinstance(n.ast, ast.AugAssign) and text(n.ast.target) == 'stop']
+    resolved_names = {text(d.ast.targets[0]) for d in f.cfg.nodes if d.kind == 'stmt' and isinstance(d.ast, ast.Assign) and len(d.ast.targets) == 1
+                      and isinstance(d.ast.targets[0], ast.Name) and is_call(d.ast.value, 'resolve_index_in_span')}
+    incs = [n for n in f.cfg.nodes if n.kind == 'stmt' and isinstance(n.ast, ast.AugAssign) and text(n.ast.target) in resolved_names]
     if not R.require(q, len(incs), 'stop += 1 (inclusive label slices)', fi=f.fi, pred=lambda x: isinstance(x, ast.AugAssign)):
         return
     n = incs[0]
     R.check(isinstance(n.ast.op, ast.Add) and is_const(n.ast.value, 1) and len(incs) == 1, q, 'inclusive:' + text(n.ast), 'a label stop is made inclusive by +1', f'`{text(n.ast)}`',
             where=f.where(n))
-    atoms = [(a, truth) for (a, truth, _t) in f.guard_atoms(n.id)]
-    # some guard must carry label provenance: a name defined as "'`' in stop" before resolution, or a direct backtick test
+    sname = text(n.ast.target)
+    atoms = [(a, truth, tn) for (a, truth, tn) in f.guard_atoms(n.id)]
+    resolved = [d for d in f.assigns_to(sname) if is_call(d.ast.value, 'resolve_index_in_span')]
+    # some guard must carry label provenance *of the stop itself*: "'`' in <stop text>", evaluated on the text, i.e.
+    # before the stop is rebound to a position - directly, or through a name defined that way
     label_guard = False
-    for (a, truth) in atoms:
+
+    def on_stop_text(cmp_: ast.AST, at: int) -> bool:
+        return isinstance(cmp_, ast.Compare) and len(cmp_.ops) == 1 and isinstance(cmp_.ops[0], ast.In) and is_const(cmp_.left, '`') and text(cmp_.comparators[0]) == sname \
+            and all(at in f.dom[d.id] for d in resolved) and all(not f.cfg.reaches(d.id, at) for d in resolved)
+
+    for (a, truth, tn) in atoms:
         if not truth:
             continue
         if isinstance(a, ast.Name):
             for (s, dv) in f.lf.values_reaching(n.id, a.id):
-                if dv is not None and isinstance(dv, ast.Compare) and isinstance(dv.ops[0], ast.In) and is_const(dv.left, '`') and text(dv.comparators[0]) == 'stop':
-                    # the test must be taken on the *text*, i.e. before stop is rebound to a position
-                    resolved = [d for d in f.assigns_to('stop') if is_call(d.ast.value, 'resolve_index_in_span')]
-                    if all(s in f.dom[d.id] for d in resolved) and all(not f.cfg.reaches(d.id, s) for d in resolved):
-                        label_guard = True
-        if isinstance(a, ast.Compare) and isinstance(a.ops[0], ast.In) and is_const(a.left, '`'):
+                if dv is not None and on_stop_text(dv, s):
+                    label_guard = True
+        if on_stop_text(a, tn.id):
             label_guard = True
-    int_guard = any(truth and text(a) == 'isinstance(stop, int)' for (a, truth) in atoms)
+    int_guard = any(truth and text(a) == f'isinstance({sname}, int)' for (a, truth, _tn) in atoms)
     R.check(label_guard, q, 'label-only-increment', 'the inclusive +1 applies only to stops written as backticked labels',
             'the +1 on `stop` is not conditional on the stop having been a backticked label: purely positional slices (X[0:2]) are extended to X[0:3] '
             'whenever the expression contains a backtick elsewhere', where=f.where(n), path=f.path_to(n))
